@@ -1,6 +1,6 @@
 """Property -> rules mapping."""
 from .core import Ctx
-from .rules import k1, reclaim, schemes, seqlock, vyukov, harris, queues
+from .rules import k1, reclaim, schemes, seqlock, vyukov, harris, queues, deque
 
 ALL_FILES = [".hpp"]
 RECL = ["reclamation/"]
@@ -193,6 +193,15 @@ def C18(ctx):
     return ("Decides structural necessary conditions of hazard slot accounting.", "'at least K' as a count over all operation sequences")
 
 
+def C12(ctx):
+    k1_rules(ctx, "C12")
+    deque.rules(ctx)
+    return ("Decides the structural half of the Chase-Lev deque: publish order, decrement/restore-or-commit pairing in try_pop, last-item CAS, "
+            "thief read-before-CAS, mask kind discipline and (by exhaustive finite evaluation of the loop-free index arithmetic) that grow() re-indexes "
+            "the live range with the same mapping as get_entry from every top offset; memory orders incl. the four seq_cst sites.",
+            "linearizability of owner/thief histories")
+
+
 def C14(ctx):
     k1_rules(ctx, "C14")
     seqlock.rules(ctx)
@@ -200,7 +209,7 @@ def C14(ctx):
             "load/store/update, reader/writer slot-index agreement, memory orders.", "absence of torn reads under all interleavings")
 
 
-PROPS = {"C04": C04, "C05": C05, "C06": C06, "C07": C07, "C14": C14, "C11": C11, "C08": C08, "C09": C09, "C01": C01, "C02": C02, "C03": C03, "C10": C10, "C17": C17, "C18": C18}
+PROPS = {"C12": C12, "C04": C04, "C05": C05, "C06": C06, "C07": C07, "C14": C14, "C11": C11, "C08": C08, "C09": C09, "C01": C01, "C02": C02, "C03": C03, "C10": C10, "C17": C17, "C18": C18}
 
 
 def run(prop, tier):
